@@ -2,6 +2,7 @@
   HvProofs.Vmtar — lemmas about the vmtar model.
 -/
 import Hv.Vmtar
+import Hv.VmtarEnc
 namespace Hv.Vmtar
 open Hv
 
@@ -333,11 +334,7 @@ theorem listFrom_plain (f : File) (hp : PlainArchive f) : ∀ fuel offset tell a
 
 /-! ### A tiny archive writer, used for the non-vacuity examples -/
 
-def octDigits : Nat → Nat → Bytes
-  | 0, _ => []
-  | w + 1, n => octDigits w (n / 8) ++ [UInt8.ofNat (48 + n % 8)]
-
-def octField (w n : Nat) : Bytes := octDigits (w - 1) n ++ [0]
+-- `octDigits` / `octField` live in `Hv.VmtarEnc` (the general writer)
 
 /-- a 512-byte header block; `visor = some off` writes the visor magic and the trailer words -/
 def mkHdr (name : Bytes) (size : Nat) (typ : UInt8) (visor : Option Nat) : Bytes :=
